@@ -354,8 +354,10 @@ Proof.
   | (if ?c then _ else _) = _ => destruct c eqn:?E
   end;
   try (apply N.eqb_eq; assumption);
-  repeat match type of H with
+  exfalso;
+  match type of H with
   | obind ?o _ = _ => destruct o as [[[[? ?] ?] ?]| |] || destruct o as [[[? ?] ?]| |] || destruct o as [[? ?]| |]
+  | _ => idtac
   end; cbn [obind] in H; discriminate.
 Qed.
 
@@ -484,7 +486,7 @@ Proof.
            erewrite run_calm; [|exact Hcalm| |exact H]; cbn [v_st vset_pg]; rewrite E1; assumption.
       * cbn [err_check] in H. cbv zeta in H. rewrite set_page_err_st, E1, Hw' in H.
         change (bytes_eqb catch_sym catch_sym) with true in H. rewrite andb_false_r in H.
-        cbn [after_check] in H. injection H as <- _ _. rewrite set_page_err_st, E1. exact Hp'.
+        cbn [after_check] in H. injection H as <- _ _. change (s_path (v_st v2) <> []). rewrite E1. exact Hp'.
       * cbn [err_check after_check] in H. injection H as <- _ _. rewrite E1. exact Hp'.
     + destruct (apply_fail_unchanged _ _ _ _ _ _ _ Hne0 Ha Hs1) as [-> ->].
       assert (Hv1 : vset_ca (vset_st v0 (v_st v0)) (v_ca v0) = v0) by (destruct v0; reflexivity).
@@ -498,4 +500,678 @@ Proof.
         -- cbn [after_check] in H. injection H as <- _ _. rewrite set_page_err_st, Hp0. exact Hp.
       * cbn [err_check after_check] in H. injection H as <- _ _. rewrite Hp0. exact Hp.
       * cbn [err_check after_check] in H. injection H as <- _ _. rewrite Hp0. exact Hp.
+Qed.
+
+(* ======================================================================================== *)
+(* 5. Render, reset, and the engine                                                           *)
+(* ======================================================================================== *)
+Lemma VB_flagish : forall bits cap v st', VB bits cap v -> flagish (v_st v) st' -> VB bits cap (vset_st v st').
+Proof. intros bits cap v st' [HV Hb] Hf. split; [|exact Hb]. unfold VInv. cbn [v_st v_ca vset_st]. eapply SC_flagish; eauto. Qed.
+
+Lemma vm_render_base : forall bits cap rs sep fuel lang v v' r,
+  rs_wf bits cap true rs -> rs_named rs -> catch_calm rs -> VB bits cap v ->
+  vm_render fuel rs sep lang v = (v', r) ->
+  VB bits cap v' /\ (s_path (v_st v') = [] -> s_path (v_st v) = []).
+Proof.
+  intros bits cap rs sep fuel lang v v' r Hrs Hnm Hcc HVB H.
+  unfold vm_render in H.
+  destruct (negb (getf (v_st v) FLAG_DIRTY)); [injection H as <- _; auto|]. cbv zeta in H. cbn [v_st vset_st] in H.
+  pose proof (VB_flagish _ _ _ _ HVB (flagish_resetf (v_st v) FLAG_DIRTY)) as HVB0.
+  destruct (where_sym (resetf (v_st v) FLAG_DIRTY)) as [|x l] eqn:Hw; [injection H as <- _; auto|].
+  assert (Hpne : s_path (v_st v) <> []).
+  { intros Hp. unfold where_sym in Hw. cbn [s_path resetf set_flags] in Hw. rewrite Hp in Hw. discriminate. }
+  destruct (page_render _ _ _ _ _ _) as [r0 pg'].
+  assert (Hdone : forall r1, (vlog (vset_pg (vset_st v (resetf (v_st v) FLAG_DIRTY)) pg') (EvRender (x :: l) (s_idx (resetf (v_st v) FLAG_DIRTY)) lang), r1) = (v', r) ->
+     VB bits cap v' /\ (s_path (v_st v') = [] -> s_path (v_st v) = [])).
+  { intros r1 E. injection E as <- _. split; [exact HVB0|auto]. }
+  destruct r0 as [o|e|n]; try (eapply Hdone; exact H).
+  destruct e; try (eapply Hdone; exact H).
+  destruct (run fuel rs sep lang move_catch_code _) as [[v1 b1] s1] eqn:Hrun.
+  match type of Hrun with run _ _ _ _ _ ?vb = _ => set (vB := vb) in * end.
+  assert (HVBb : VB bits cap vB) by exact HVB0.
+  assert (HpB : s_path (v_st vB) <> []) by exact Hpne.
+  destruct (run_base bits cap rs sep Hrs Hnm fuel lang move_catch_code vB v1 b1 s1 HVBb (cok_move_catch _ _)) as (HVB1 & _ & _);
+    [intros Hp; contradiction|exact Hrun|].
+  assert (Hp1 : s_path (v_st v1) <> []).
+  { eapply (run_move_catch_path rs sep Hcc); [exact HpB| |exact Hrun].
+    destruct HVBb as [(_ & _ & _ & Hne & _) _]. exact Hne. }
+  destruct s1; try (injection H as <- _; split; [exact HVB1|intros; contradiction]);
+    destruct (page_render _ _ _ _ _ _) as [r1 pg1]; injection H as <- _; (split; [exact HVB1|intros; contradiction]).
+Qed.
+
+(* the reset: every level popped; the base scope stays what it was *)
+Lemma unwind_base : forall fuel st ca st' ca' s, base_empty ca -> unwind fuel st ca = (st', ca', s) -> base_empty ca'.
+Proof.
+  induction fuel as [|fuel IH]; intros st ca st' ca' s Hb H; cbn [unwind] in H; [injection H as _ <- _; exact Hb|].
+  destruct (st_top st) as [t| |]; try (injection H as _ <- _; exact Hb).
+  destruct (st_up st) as [[sy st1]| |]; try (injection H as _ <- _; exact Hb).
+  pose proof (base_pop_lenient ca Hb) as Hb1.
+  destruct t; [injection H as _ <- _; exact Hb1|]. eapply IH; [exact Hb1|exact H].
+Qed.
+
+Lemma eng_reset_inner_base : forall bits cap v v' s,
+  VB bits cap v -> eng_reset_inner v = (v', s) ->
+  VB bits cap v' /\ s_code (v_st v') = s_code (v_st v) /\ (s = SOk -> s_path (v_st v') = []).
+Proof.
+  intros bits cap v v' s [HV Hb] H.
+  pose proof (eng_reset_inner_safe bits cap true v HV) as [_ S2]. rewrite H in S2. cbn [fst] in S2.
+  unfold eng_reset_inner in H.
+  destruct (unwind _ (v_st v) (v_ca v)) as [[st ca] s1] eqn:Hu.
+  pose proof (unwind_base _ _ _ _ _ _ Hb Hu) as Hb1.
+  pose proof (unwind_sbp _ _ _ _ _ _ Hu) as (Hcode & _).
+  pose proof (unwind_SC bits cap true (S (List.length (s_path (v_st v)))) (v_st v) (v_ca v) HV ltac:(lia)) as (_ & _ & U3).
+  rewrite Hu in U3. cbn [fst snd] in U3.
+  destruct s1; try (injection H as <- <-; split; [split; [exact S2|exact Hb1]|]; split; [symmetry; exact Hcode|discriminate]).
+  injection H as <- <-. split; [split; [exact S2|exact Hb1]|]. cbn [v_st vset_ca vset_st].
+  assert (Er : st_restart st = Err EGen) by (unfold st_restart; rewrite (U3 eq_refl); reflexivity).
+  rewrite Er. split; [symmetry; exact Hcode|]. intros _. exact (U3 eq_refl).
+Qed.
+
+(* engine invariant *)
+Definition EB (bits cap : N) (e : engine) : Prop :=
+  VB bits cap (e_v e)
+  /\ (s_path (v_st (e_v e)) = [] -> move_only (s_code (v_st (e_v e))))
+  /\ (e_exiting e = true -> s_code (v_st (e_v e)) = []).
+
+Lemma move_only_nil : move_only []. Proof. left. reflexivity. Qed.
+
+Lemma eng_flush_base : forall bits cap fuel rs c e e' out f,
+  rs_wf bits cap true rs -> rs_named rs -> catch_calm rs -> EB bits cap e ->
+  eng_flush fuel rs c e = (e', out, f) -> EB bits cap e'.
+Proof.
+  intros bits cap fuel rs c e e' out f Hrs Hnm Hcc (HVB & Hmo & Hex) H. unfold eng_flush in H.
+  destruct (negb (e_execd e)); [injection H as <- _ _; exact (conj HVB (conj Hmo Hex))|].
+  destruct (vm_render fuel rs (c_sep c) _ (e_v e)) as [v r] eqn:Hr.
+  destruct (vm_render_base _ _ _ _ _ _ _ _ _ Hrs Hnm Hcc HVB Hr) as [HVB1 Hp1].
+  assert (Hcode : s_code (v_st v) = s_code (v_st (e_v e))).
+  { apply vm_render_shape in Hr. destruct Hr as (_ & _ & Hc & _). symmetry. exact Hc. }
+  assert (Hkeep : EB bits cap (eset_v e v)).
+  { split; [exact HVB1|]. cbn [e_v eset_v e_exiting]. rewrite Hcode. split; [intros Hp; apply Hmo; apply Hp1; exact Hp|exact Hex]. }
+  assert (Hreset : forall v2 s2 i x d, eng_reset_inner v = (v2, s2) -> e_exiting e = true -> EB bits cap (mkEng v2 i x false d)).
+  { intros v2 s2 i x d E Hq. destruct (eng_reset_inner_base _ _ _ _ _ HVB1 E) as (HVB2 & Hc2 & _).
+    split; [exact HVB2|]. cbn [e_v e_exiting]. rewrite Hc2, Hcode, (Hex Hq). split; [intros _; apply move_only_nil|discriminate]. }
+  cbn [eset_v e_v e_exit e_exiting e_initd e_execd] in H.
+  destruct r as [o|er|n|]; try (injection H as <- _ _; exact Hkeep).
+  - destruct ((0 <? c_out c) && (0 <? len (e_exit e)) && (c_out c <? w32 (len (e_exit e) + len o))).
+    + destruct (e_exiting e) eqn:Hq; [|injection H as <- _ _; exact Hkeep].
+      destruct (eng_reset_inner v) as [v2 s2] eqn:E. injection H as <- _ _. eapply Hreset; eauto.
+    + destruct (e_exiting e) eqn:Hq; [|destruct (e_exit e); injection H as <- _ _; exact Hkeep].
+      destruct (eng_reset_inner v) as [v2 s2] eqn:E.
+      destruct (e_exit e); destruct s2; injection H as <- _ _; eapply Hreset; eauto.
+  - destruct ((0 <? c_out c) && (0 <? len (e_exit e)) && (c_out c <? w32 (len (e_exit e) + 0))).
+    + destruct (e_exiting e) eqn:Hq; [|injection H as <- _ _; exact Hkeep].
+      destruct (eng_reset_inner v) as [v2 s2] eqn:E. injection H as <- _ _. eapply Hreset; eauto.
+    + destruct (e_exit e) as [|y ex]; [injection H as <- _ _; exact Hkeep|].
+      destruct (e_exiting e) eqn:Hq; [|injection H as <- _ _; exact Hkeep].
+      destruct (eng_reset_inner v) as [v2 s2] eqn:E.
+      destruct s2; injection H as <- _ _; eapply Hreset; eauto.
+Qed.
+
+Lemma set_code_eng_base : forall bits cap e b e' cont,
+  EB bits cap e -> e_exiting e = false -> cok bits true b ->
+  (s_path (v_st (e_v e)) = [] -> move_only b) ->
+  set_code_eng e b = (e', cont) -> EB bits cap e'.
+Proof.
+  intros bits cap e b e' cont ([HV Hb] & _ & _) Hq Hc Hmo H.
+  pose proof (set_code_eng_safe bits cap true e b HV Hc) as HS. rewrite H in HS. cbn [fst] in HS.
+  unfold set_code_eng in H. cbv zeta in H. destruct b as [|x b'].
+  - destruct (getf (set_code (v_st (e_v e)) []) FLAG_DIRTY).
+    + destruct (cache_last (v_ca (e_v e))) as [lst ca'] eqn:Hl. injection H as <- _.
+      split; [split; [exact HS|]|].
+      * cbn [e_v v_ca vset_ca]. unfold cache_last in Hl. injection Hl as _ <-. exact Hb.
+      * cbn [e_v v_st vset_ca vset_st e_exiting s_code s_path set_code]. split; [intros _; apply move_only_nil|reflexivity].
+    + injection H as <- _. split; [split; [exact HS|exact Hb]|].
+      cbn [e_v eset_v v_st vset_st e_exiting s_code s_path set_code]. split; [intros _; apply move_only_nil|reflexivity].
+  - injection H as <- _. split; [split; [exact HS|exact Hb]|].
+    cbn [e_v eset_v v_st vset_st e_exiting s_code s_path set_code]. split; [exact Hmo|]. rewrite Hq. discriminate.
+Qed.
+
+Lemma move_only_root : forall c, wf_sym (cfg_root c) -> move_only (encode (IMove (cfg_root c))).
+Proof. intros c H. right. exists (cfg_root c). auto. Qed.
+
+Lemma EB_set_input : forall bits cap e st', EB bits cap e -> set_input (v_st (e_v e)) st' = set_input (v_st (e_v e)) st' ->
+  forall i st1, set_input (v_st (e_v e)) i = Ok st1 -> EB bits cap (eset_v e (vset_st (e_v e) st1)).
+Proof.
+  intros bits cap e _ ([HV Hb] & Hmo & Hex) _ i st1 Hs.
+  pose proof (set_input_SC bits cap true (v_st (e_v e)) (v_ca (e_v e)) i HV) as HS. rewrite Hs in HS.
+  assert (E : st1 = set_input_raw (v_st (e_v e)) i).
+  { unfold set_input in Hs. destruct i as [x|]; [destruct (INPUT_LIMIT <? len x); [discriminate|]|]; injection Hs as <-; reflexivity. }
+  split; [split; [exact HS|exact Hb]|]. cbn [e_v eset_v v_st vset_st e_exiting]. rewrite E. exact (conj Hmo Hex).
+Qed.
+
+Lemma eng_init_base : forall bits cap fuel rs c e input e' cont s,
+  rs_wf bits cap true rs -> rs_named rs -> catch_calm rs -> c_first c = None -> wf_sym (cfg_root c) ->
+  EB bits cap e -> eng_init fuel rs c e input = (e', cont, s) ->
+  EB bits cap e' /\ (s = SOk -> e_exiting e' = false).
+Proof.
+  intros bits cap fuel rs c e input e' cont s Hrs Hnm Hcc Hf Hroot HE H. unfold eng_init in H.
+  destruct (if e_execd e then _ else _) as [e1 s1] eqn:Hprep.
+  assert (HE1 : EB bits cap e1).
+  { destruct (e_execd e); [|injection Hprep as <- _; exact HE].
+    destruct (eng_flush fuel rs c e) as [[e0 o0] f0] eqn:Hfl. injection Hprep as <- _.
+    eapply eng_flush_base; eauto. }
+  destruct s1; try (injection H as <- _ <-; split; [exact HE1|discriminate]).
+  set (e2 := mkEng (e_v e1) (e_initd e1) [] false false) in *.
+  assert (HE2 : EB bits cap e2).
+  { destruct HE1 as (A & B & _). split; [exact A|]. split; [exact B|discriminate]. }
+  cbn [e_initd e_v] in H. change (e_initd e2) with (e_initd e1) in H.
+  destruct (e_initd e1); [injection H as <- _ _; split; [exact HE2|reflexivity]|].
+  change (e_v e2) with (e_v e1) in H.
+  destruct (set_input (v_st (e_v e1)) (Some input)) as [st1| |] eqn:Hsi;
+    try (injection H as <- _ <-; split; [exact HE2|discriminate]).
+  pose proof (EB_set_input bits cap e2 (Some input) HE2 eq_refl (Some input) st1 Hsi) as HE3.
+  unfold run_first in H. rewrite Hf in H. cbn [negb] in H.
+  set (e3 := eset_v e2 (vset_st (e_v e1) st1)) in *.
+  change (eset_v e2 (vset_st (e_v e2) st1)) with e3 in HE3.
+  destruct (match s_code (v_st (e_v e3)) with [] => _ | _ => _ end) as [e4' s4] eqn:Hstale.
+  assert (HE4 : EB bits cap e4' /\ e_exiting e4' = false).
+  { destruct (s_code (v_st (e_v e3))) eqn:Hc3; [|injection Hstale as <- _; split; [exact HE3|reflexivity]].
+    destruct (s_path (v_st (e_v e3))); [injection Hstale as <- _; split; [exact HE3|reflexivity]|].
+    destruct (getf (v_st (e_v e3)) FLAG_TERMINATE); [injection Hstale as <- _; split; [exact HE3|reflexivity]|].
+    destruct (eng_reset_inner (e_v e3)) as [v' s'] eqn:E. injection Hstale as <- _.
+    destruct (eng_reset_inner_base _ _ _ _ _ (proj1 HE3) E) as (HVB' & Hc' & _).
+    split; [|reflexivity]. split; [exact HVB'|]. cbn [e_v eset_v e_exiting]. rewrite Hc', Hc3.
+    split; [intros _; apply move_only_nil|discriminate]. }
+  destruct HE4 as [HE4 Hq4].
+  destruct s4; try (injection H as <- _ <-; split; [exact HE4|discriminate]).
+  destruct (match s_code (v_st (e_v e4')) with [] => _ | _ => _ end) as [e5 cont5] eqn:Hsc.
+  assert (HE5 : EB bits cap e5 /\ e_exiting e5 = false).
+  { destruct (s_code (v_st (e_v e4'))); [|injection Hsc as <- _; split; [exact HE4|exact Hq4]].
+    split.
+    - eapply set_code_eng_base; [exact HE4|exact Hq4|apply cok_move_root; exact Hroot| |exact Hsc].
+      intros _. apply move_only_root. exact Hroot.
+    - unfold set_code_eng in Hsc. destruct (encode_move_cons (cfg_root c)) as (a0 & b0 & r0 & E). rewrite E in Hsc.
+      injection Hsc as <- _. exact Hq4. }
+  destruct HE5 as [HE5 Hq5].
+  injection H as <- _ _. split; [|intros _; exact Hq5].
+  destruct HE5 as ([HV5 Hb5] & Hmo5 & Hex5).
+  split; [split; [|exact Hb5]|exact (conj Hmo5 Hex5)].
+  unfold VInv. cbn [e_v v_st v_ca vset_st]. apply SC_set_input_raw; [exact HV5|].
+  intros _. destruct HE2 as ([(_ & _ & _ & _ & K) _] & _). destruct (K eq_refl) as (_ & _ & _ & Hin). exact Hin.
+Qed.
+
+Lemma VB_set_code : forall bits cap v b, VB bits cap v -> cok bits true b -> VB bits cap (vset_st v (set_code (v_st v) b)).
+Proof. intros bits cap v b [HV Hb] Hc. split; [|exact Hb]. unfold VInv. cbn [v_st v_ca vset_st]. apply SC_set_code; assumption. Qed.
+
+Lemma eng_exec_inner_base : forall bits cap fuel rs c e e' cont s,
+  rs_wf bits cap true rs -> rs_named rs -> EB bits cap e -> e_exiting e = false ->
+  eng_exec_inner fuel rs c e = (e', cont, s) -> EB bits cap e'.
+Proof.
+  intros bits cap fuel rs c e e' cont s Hrs Hnm (HVB & Hmo & _) Hq H. unfold eng_exec_inner in H. cbv zeta in H.
+  pose proof (VB_set_code bits cap (e_v e) [] HVB ltac:(constructor)) as HVB0.
+  assert (Hcok : cok bits true (s_code (v_st (e_v e)))).
+  { destruct HVB as [(_ & _ & Hc & _) _]. exact Hc. }
+  destruct (s_code (v_st (e_v e))) as [|x code] eqn:Hc.
+  - injection H as <- _ _. split; [exact HVB0|]. cbn [e_v eset_v v_st vset_st s_code s_path set_code e_exiting].
+    split; [intros _; apply move_only_nil|rewrite Hq; discriminate].
+  - destruct (run fuel rs (c_sep c) _ (x :: code) _) as [[v1 b] s1] eqn:Hrun.
+    destruct (run_base bits cap rs (c_sep c) Hrs Hnm _ _ _ _ _ _ _ HVB0 Hcok Hmo Hrun) as (HVB1 & Hcb & Hmb).
+    assert (Hc1 : s_code (v_st v1) = []).
+    { apply run_shape in Hrun. destruct Hrun as (_ & _ & Hx & _). rewrite <- Hx. reflexivity. }
+    assert (HEe : forall i x0 d, EB bits cap (mkEng v1 i x0 false d)).
+    { intros i x0 d. split; [exact HVB1|]. cbn [e_v e_exiting]. rewrite Hc1. split; [intros _; apply move_only_nil|discriminate]. }
+    destruct s1.
+    + rewrite Hq in H. destruct (getf (v_st v1) FLAG_TERMINATE); [injection H as <- _ _; apply HEe|].
+      destruct (set_code_eng _ b) as [e2 cont2] eqn:Hsc. injection H as <- _ _.
+      eapply set_code_eng_base; [apply HEe|reflexivity|exact Hcb| |exact Hsc]. cbn [e_v]. exact (Hmb eq_refl).
+    + injection H as <- _ _. unfold eset_v. rewrite Hq. apply HEe.
+    + injection H as <- _ _. unfold eset_v. rewrite Hq. apply HEe.
+    + injection H as <- _ _. unfold eset_v. rewrite Hq. apply HEe.
+Qed.
+
+Lemma eng_exec_base : forall bits cap fuel rs c e input e' cont s,
+  rs_wf bits cap true rs -> rs_named rs -> catch_calm rs -> c_first c = None -> wf_sym (cfg_root c) ->
+  EB bits cap e -> eng_exec fuel rs c e input = (e', cont, s) -> EB bits cap e'.
+Proof.
+  intros bits cap fuel rs c e input e' cont s Hrs Hnm Hcc Hf Hroot HE H. unfold eng_exec in H.
+  destruct (eng_init fuel rs c e input) as [[e1 cont1] s1] eqn:Hi.
+  destruct (eng_init_base _ _ _ _ _ _ _ _ _ _ Hrs Hnm Hcc Hf Hroot HE Hi) as [HE1 Hq1].
+  destruct s1; try (injection H as <- _ _; exact HE1). specialize (Hq1 eq_refl).
+  destruct (negb cont1); [injection H as <- _ _; exact HE1|].
+  destruct (if c_reset_empty c && (len input =? 0) then _ else _) as [e2 s2] eqn:Hre.
+  assert (HE2 : EB bits cap e2 /\ e_exiting e2 = false).
+  { destruct (c_reset_empty c && (len input =? 0)); [|injection Hre as <- _; auto].
+    unfold eng_reset_force in Hre. destruct (s_path (v_st (e_v e1))); [injection Hre as <- _; auto|].
+    destruct (eng_reset_inner _) as [v' s'] eqn:E. injection Hre as <- _.
+    pose proof (VB_set_code bits cap (e_v e1) _ (proj1 HE1) (cok_move_root bits true c Hroot)) as HVBs.
+    destruct (eng_reset_inner_base _ _ _ _ _ HVBs E) as (HVB' & Hc' & _).
+    split; [|exact Hq1]. split; [exact HVB'|]. cbn [e_v eset_v e_exiting]. rewrite Hc'. cbn [v_st vset_st s_code set_code].
+    split; [intros _; apply move_only_root; exact Hroot|rewrite Hq1; discriminate]. }
+  destruct HE2 as [HE2 Hq2].
+  destruct s2; try (injection H as <- _ _; exact HE2).
+  destruct ((0 <? len input) && negb (valid_input_b input)); [injection H as <- _ _; exact HE2|].
+  destruct (set_input (v_st (e_v e2)) (Some input)) as [st'| |] eqn:Hsi; try (injection H as <- _ _; exact HE2).
+  pose proof (EB_set_input bits cap e2 (Some input) HE2 eq_refl (Some input) st' Hsi) as HE3.
+  eapply eng_exec_inner_base; [exact Hrs|exact Hnm|exact HE3|exact Hq2|exact H].
+Qed.
+
+(* the stored session *)
+Definition SB (bits cap : N) (sn : option snapshot) : Prop :=
+  match sn with
+  | Some (st, ca) => SC bits cap true st ca /\ base_empty ca /\ (s_path st = [] -> move_only (s_code st))
+  | None => True
+  end.
+
+Lemma EB_snap : forall bits cap e, EB bits cap e -> SB bits cap (Some (snap_of (v_st (e_v e)) (v_ca (e_v e)))).
+Proof.
+  intros bits cap e ([HV Hb] & Hmo & _). unfold SB, snap_of. split; [|split; [exact Hb|exact Hmo]].
+  apply SC_set_input_raw; [exact HV|intros _; exact I].
+Qed.
+
+Lemma new_engine_EB : forall c sn w lg, cfg_ok c -> SB (cfg_bits c) (c_cachesize c) sn ->
+  EB (cfg_bits c) (c_cachesize c) (new_engine c sn w lg).
+Proof.
+  intros c sn w lg Hc HS. unfold new_engine. destruct sn as [[st ca]|].
+  - destruct HS as (H1 & H2 & H3). split; [split; assumption|]. cbn [e_v v_st e_exiting]. split; [exact H3|discriminate].
+  - split; [split; [apply fresh_SC; exact Hc|reflexivity]|]. cbn [e_v v_st e_exiting].
+    split; [|discriminate]. intros _. left.
+    unfold fresh_state. destruct (s_lang _); [cbn [s_code setf set_flags]|];
+      unfold st_set_language; destruct (c_lang c); destruct (lang_lookup _); reflexivity.
+Qed.
+
+Lemma request_persisted_base : forall fuel rs c p input,
+  rs_wf (cfg_bits c) (c_cachesize c) true rs -> rs_named rs -> catch_calm rs -> cfg_ok c -> c_first c = None ->
+  SB (cfg_bits c) (c_cachesize c) (pw_store p) ->
+  SB (cfg_bits c) (c_cachesize c) (pw_store (fst (request_persisted fuel rs c p input))).
+Proof.
+  intros fuel rs c p input Hrs Hnm Hcc Hc Hf HS. unfold request_persisted.
+  set (e := new_engine c (pw_store p) (pw_w p) (pw_log p)).
+  assert (HE : EB (cfg_bits c) (c_cachesize c) e) by (apply new_engine_EB; assumption).
+  assert (H0 : SB (cfg_bits c) (c_cachesize c)
+                 (match pw_store p with Some s => Some s | None => Some (snap_of (v_st (e_v e)) (v_ca (e_v e))) end)).
+  { destruct (pw_store p) as [sn|] eqn:Hp; [exact HS|]. apply EB_snap. exact HE. }
+  destruct (eng_exec fuel rs c e input) as [[e1 cont] s] eqn:Hx.
+  pose proof (eng_exec_base _ _ _ _ _ _ _ _ _ _ Hrs Hnm Hcc Hf (proj1 Hc) HE Hx) as HE1.
+  destruct s; try (cbn [fst pw_store]; exact H0).
+  - destruct (eng_flush fuel rs c e1) as [[e2 out] f] eqn:Hfl.
+    pose proof (eng_flush_base _ _ _ _ _ _ _ _ _ Hrs Hnm Hcc HE1 Hfl) as HE2.
+    destruct f; cbn [fst pw_store]; try exact H0; unfold eng_finish; (destruct (e_initd e2); [apply EB_snap; exact HE2|exact H0]).
+  - destruct (eng_flush fuel rs c e1) as [[e2 out] f] eqn:Hfl.
+    pose proof (eng_flush_base _ _ _ _ _ _ _ _ _ Hrs Hnm Hcc HE1 Hfl) as HE2.
+    destruct f; cbn [fst pw_store]; try exact H0; unfold eng_finish; (destruct (e_initd e2); [apply EB_snap; exact HE2|exact H0]).
+Qed.
+
+Lemma hist_pers_base : forall rs c,
+  rs_wf (cfg_bits c) (c_cachesize c) true rs -> rs_named rs -> catch_calm rs -> cfg_ok c -> c_first c = None ->
+  forall h p, SB (cfg_bits c) (c_cachesize c) (pw_store p) ->
+  SB (cfg_bits c) (c_cachesize c) (pw_store (fst (hist_pers rs c p h))).
+Proof.
+  intros rs c Hrs Hnm Hcc Hc Hf. induction h as [|[fuel input] h IH]; intros p HS; cbn [hist_pers]; [exact HS|].
+  pose proof (request_persisted_base fuel rs c p input Hrs Hnm Hcc Hc Hf HS) as H1.
+  destruct (request_persisted fuel rs c p input) as [p' resp]. cbn [fst] in H1.
+  specialize (IH p' H1). destruct (hist_pers rs c p' h) as [p'' resps]. exact IH.
+Qed.
+
+(* ======================================================================================== *)
+(* 6. decidable guards on the application                                                     *)
+(* ======================================================================================== *)
+From Vise Require Import CorrBase EngineCorr EngineMon.
+
+Fixpoint calm_prog (p : list instr) : bool :=
+  match p with
+  | [] => false
+  | IHalt :: _ => true
+  | i :: r => negb (navigating i) && calm_prog r
+  end.
+(* the catch node reaches a HALT before any MOVE / INCMP / CATCH (or does not exist / is empty) *)
+Definition quiet_catch_b (a : app) : bool :=
+  match alookup catch_sym (a_code a) with
+  | Some [] => true
+  | Some c => match parse_all c with Ok p => calm_prog p | _ => false end
+  | None => true
+  end.
+
+Lemma calm_prog_cons : forall i q, calm_prog (i :: q) = true -> i = IHalt \/ (i <> IHalt /\ navigating i = false /\ calm_prog q = true).
+Proof.
+  intros i q H. destruct i; cbn [calm_prog navigating negb andb] in H; try discriminate; try (left; reflexivity);
+    right; (split; [discriminate|split; [reflexivity|exact H]]).
+Qed.
+
+Lemma parse_all_fuel_calm : forall f b acc p,
+  parse_all_fuel f b acc = Ok p -> exists q, p = rev acc ++ q /\ (calm_prog q = true -> calm b).
+Proof.
+  induction f as [|f IH]; intros b acc p H; cbn [parse_all_fuel] in H; [discriminate|].
+  destruct (decode_one b) as [[i r]|e|s] eqn:D; try discriminate.
+  destruct r as [|x r'].
+  - inversion H; subst. exists [i]. split; [reflexivity|].
+    intros Hq. destruct (calm_prog_cons _ _ Hq) as [->|(_ & _ & Hx)]; [eapply calm_halt; exact D|discriminate Hx].
+  - apply IH in H. destruct H as [q [-> Hq]]. exists (i :: q). split.
+    + cbn [rev]. rewrite <- app_assoc. reflexivity.
+    + intros HF. destruct (calm_prog_cons _ _ HF) as [->|(Hh & Hn & Hx)]; [eapply calm_halt; exact D|].
+      eapply calm_step; [exact D|exact Hn|exact Hh|exact (Hq Hx)].
+Qed.
+
+Lemma quiet_catch_sound : forall a, quiet_catch_b a = true -> catch_calm (app_rsrc a).
+Proof.
+  intros a H c Hc. cbn [app_rsrc rs_code] in Hc. unfold quiet_catch_b in H.
+  destruct (alookup catch_sym (a_code a)) as [c0|]; [|discriminate]. injection Hc as <-.
+  destruct c0 as [|x c0]; [left; reflexivity|right].
+  destruct (parse_all (x :: c0)) as [p| |] eqn:Hp; try discriminate.
+  unfold parse_all in Hp. destruct (parse_all_fuel_calm _ _ _ _ Hp) as (q & -> & Hq). exact (Hq H).
+Qed.
+
+Lemma no_anon_node_sound : forall a, has_node a [] = false -> rs_named (app_rsrc a).
+Proof.
+  intros a H c Hc. cbn [app_rsrc rs_code] in Hc. unfold has_node, ahas in H.
+  destruct (alookup [] (a_code a)); [discriminate|discriminate].
+Qed.
+
+(* all guards of the history theorem, as one boolean (plus c_first c = None) *)
+Definition c20_guards (a : app) (c : config) : bool :=
+  wf_app_b a c && cfg_okb c && negb (has_croak a) && vals_small (c_cachesize c) a
+  && negb (has_node a []) && quiet_catch_b a.
+
+Lemma c20_guards_sound : forall a c, c20_guards a c = true ->
+  rs_wf (cfg_bits c) (c_cachesize c) true (app_rsrc a) /\ rs_named (app_rsrc a) /\ catch_calm (app_rsrc a) /\ cfg_ok c.
+Proof.
+  intros a c H. unfold c20_guards in H.
+  apply andb_true_iff in H. destruct H as [H G6]. apply andb_true_iff in H. destruct H as [H G5].
+  apply andb_true_iff in H. destruct H as [H G4]. apply andb_true_iff in H. destruct H as [H G3].
+  apply andb_true_iff in H. destruct H as [G1 G2].
+  split; [apply wf_app_rs_wf_consistent; [exact G1| |exact G4]; destruct (has_croak a); [discriminate|reflexivity]|].
+  split; [apply no_anon_node_sound; destruct (has_node a []); [discriminate|reflexivity]|].
+  split; [apply quiet_catch_sound; exact G6|apply cfg_okb_sound; exact G2].
+Qed.
+
+(* every stored session reachable by a history from a new session *)
+Lemma history_store_inv : forall a c w lg h,
+  c20_guards a c = true -> c_first c = None ->
+  SB (cfg_bits c) (c_cachesize c) (pw_store (fst (hist_pers (app_rsrc a) c (mkPw None w lg false) h))).
+Proof.
+  intros a c w lg h Hg Hf. destruct (c20_guards_sound a c Hg) as (Hrs & Hnm & Hcc & Hc).
+  apply hist_pers_base; try assumption. exact I.
+Qed.
+
+(* ======================================================================================== *)
+(* 7. C20: graceful end after any history, without a hypothesis on the session invariant      *)
+(* ======================================================================================== *)
+Lemma SB_builtin : forall c st ca, cfg_ok c -> SC (cfg_bits c) (c_cachesize c) true st ca -> builtin_flags_ok st.
+Proof.
+  intros c st ca (_ & Hfc & _) (Hb & Hl & _). unfold builtin_flags_ok, flag_in_range.
+  unfold cfg_bits, w32 in *. rewrite N.mod_small in * by lia.
+  change ((FLAG_LANG + 1) mod 4294967296) with 8. unfold FLAG_LANG.
+  apply andb_true_intro. split; lia.
+Qed.
+
+Lemma prepared_VB : forall c st ca w lg input,
+  cfg_ok c -> SB (cfg_bits c) (c_cachesize c) (Some (st, ca)) -> accepted_b input = true ->
+  VB (cfg_bits c) (c_cachesize c)
+     (mkVm (set_code (prep_state c st input) []) ca (new_vm_page (c_out c) (c_sep c)) w lg false)
+  /\ cok (cfg_bits c) true (prep_code c st)
+  /\ (s_path st = [] -> move_only (prep_code c st)).
+Proof.
+  intros c st ca w lg input Hc (HS & Hb & Hmo) Ha.
+  assert (Hcok : cok (cfg_bits c) true (prep_code c st)).
+  { unfold prep_code. destruct (s_code st) eqn:E; [apply cok_move_root; exact (proj1 Hc)|].
+    destruct HS as (_ & _ & Hx & _). rewrite E in Hx. exact Hx. }
+  split; [|split; [exact Hcok|]].
+  - split; [|exact Hb]. unfold VInv. cbn [v_st v_ca]. apply SC_set_code; [|constructor].
+    unfold prep_state. apply SC_set_input_raw; [apply SC_set_code; assumption|].
+    intros _. unfold accepted_b in Ha. apply andb_prop in Ha as [Ha _]. lia.
+  - intros Hp. unfold prep_code. destruct (s_code st) eqn:E; [apply move_only_root; exact (proj1 Hc)|].
+    exact (Hmo Hp).
+Qed.
+
+Lemma graceful_end_history : forall a c w lg h fuel input st ca v1 v' page,
+  c20_guards a c = true -> c_first c = None ->
+  let rs := app_rsrc a in
+  let p := fst (hist_pers rs c (mkPw None w lg false) h) in
+  pw_store p = Some (st, ca) ->
+  accepted_b input = true -> (reset_req c input = false \/ s_path st = []) -> stale st = false ->
+  (* the last request is a graceful end: its run leaves no code, OK, TERMINATE clear, the page renders *)
+  run fuel rs (c_sep c) (s_lang st) (prep_code c st)
+      (mkVm (set_code (prep_state c st input) []) ca (new_vm_page (c_out c) (c_sep c)) (pw_w p) (pw_log p) false) = (v1, [], SOk) ->
+  getf (v_st v1) FLAG_TERMINATE = false ->
+  vm_render fuel rs (c_sep c) (s_lang (v_st v1)) (exiting_vm v1) = (v', RROk page) ->
+  s_path (v_st v') <> [] ->
+  exists st' ca',
+    request_persisted fuel rs c p input
+    = (mkPw (Some (st', ca')) (v_w v') (v_log v') (pw_taint p || v_taint v'),
+       if size_overflow c (c_last (v_ca v1)) page
+       then mkResp false SOk [] (FErr EGen)
+       else mkResp false SOk (page ++ c_last (v_ca v1)) FOk)
+    (* position, code, cache *)
+    /\ s_path st' = [] /\ s_idx st' = 0 /\ s_code st' = []
+    /\ c_frames ca' = [[]] /\ c_use ca' = 0
+    (* what is kept *)
+    /\ s_lang st' = s_lang (v_st v')
+    /\ getf st' FLAG_TERMINATE = false /\ getf st' FLAG_DIRTY = false
+    /\ (forall i, i <> FLAG_TERMINATE -> i <> FLAG_DIRTY -> getf st' i = getf (v_st v') i)
+    (* the next request starts at the entry node, in that cache *)
+    /\ (forall fuel2 w2 lg2 input2, accepted_b input2 = true ->
+          eng_exec fuel2 rs c (new_engine c (Some (st', ca')) w2 lg2) input2
+          = eng_exec_inner fuel2 rs c (prep_engine c st' ca' w2 lg2 input2)
+          /\ s_code (v_st (e_v (prep_engine c st' ca' w2 lg2 input2))) = encode (IMove (cfg_root c))
+          /\ s_path (v_st (e_v (prep_engine c st' ca' w2 lg2 input2))) = []
+          /\ v_ca (e_v (prep_engine c st' ca' w2 lg2 input2)) = ca').
+Proof.
+  intros a c w lg h fuel input st ca v1 v' page Hg Hf rs p Hs Ha Hreset Hstale Hrun Ht Hrender Hp.
+  destruct (c20_guards_sound a c Hg) as (Hrs & Hnm & Hcc & Hc).
+  pose proof (history_store_inv a c w lg h Hg Hf) as HSB. fold rs p in HSB. rewrite Hs in HSB.
+  destruct (prepared_VB c st ca (pw_w p) (pw_log p) input Hc HSB Ha) as (HVB0 & Hcok & Hmo).
+  destruct (run_base _ _ rs (c_sep c) Hrs Hnm _ _ _ _ _ _ _ HVB0 Hcok Hmo Hrun) as (HVB1 & _ & _).
+  assert (HVBx : VB (cfg_bits c) (c_cachesize c) (exiting_vm v1)).
+  { unfold exiting_vm. destruct (VB_set_code _ _ v1 [] HVB1 ltac:(constructor)) as [HVs Hbs].
+    split; [|exact Hbs]. unfold VInv. cbn [v_st v_ca vset_ca vset_st]. apply SC_cache_last. exact HVs. }
+  destruct (vm_render_base _ _ _ _ _ _ _ _ _ Hrs Hnm Hcc HVBx Hrender) as [[HV' Hb'] _].
+  assert (Hinv : end_inv (v_st v') (v_ca v')).
+  { split; [eapply VInv_nav; exact HV'|]. split; [eapply VInv_CInv; exact HV'|exact Hb']. }
+  destruct (graceful_end_request fuel rs c p input st ca v1 v' page Hf Hs Ha Hreset Hstale
+              (SB_builtin c st ca Hc (proj1 HSB)) Hrun Ht Hrender Hp) as (_ & _ & Hreq).
+  destruct (ended_state v') as (E1 & E2 & E3 & E4 & E5 & E6 & E7).
+  destruct (ended_cache v' Hinv) as (C1 & C2 & _).
+  pose proof (graceful_end_stored_code _ _ _ _ _ _ _ Hrender) as Hcode.
+  exists (set_input_raw (v_st (ended v')) None), (v_ca (ended v')).
+  split; [exact Hreq|].
+  split; [exact E1|]. split; [exact E2|]. split; [exact Hcode|]. split; [exact C1|]. split; [exact C2|].
+  split; [exact E4|]. split; [exact E5|]. split; [exact E6|]. split; [exact E7|].
+  intros fuel2 w2 lg2 input2 Ha2.
+  destruct (restart_at_entry fuel2 rs c (set_input_raw (v_st (ended v')) None) (v_ca (ended v')) w2 lg2 input2 Hf Ha2 Hcode E1)
+    as (R1 & R2 & R3 & R4 & _).
+  auto.
+Qed.
+
+(* the invariant C20_graceful_end_cache assumed, for every stored session of every history *)
+Lemma history_store_end_inv : forall a c w lg h st ca,
+  c20_guards a c = true -> c_first c = None ->
+  pw_store (fst (hist_pers (app_rsrc a) c (mkPw None w lg false) h)) = Some (st, ca) ->
+  end_inv st ca /\ (s_path st = [] -> move_only (s_code st)).
+Proof.
+  intros a c w lg h st ca Hg Hf Hs. pose proof (history_store_inv a c w lg h Hg Hf) as H. rewrite Hs in H.
+  destruct H as (HS & Hb & Hmo). split; [|exact Hmo].
+  destruct HS as (_ & _ & _ & _ & K). destruct (K eq_refl) as (K1 & K2 & _).
+  split; [exact K1|]. split; [exact K2|exact Hb].
+Qed.
+
+(* ---- the guard "no node with the empty name" is needed ------------------------------------------- *)
+(* "_" at the entry node empties the position (K-C04-up-at-entry) and GetCode("") SUCCEEDS: the
+   anonymous node's LOAD stores into the base scope; the graceful end two requests later leaves it *)
+Definition app_anon : app :=
+  mkApp [nd "root" [IHalt; IInCmp (s2b "_") (s2b "0"); IInCmp (s2b "end1") (s2b "1")];
+         ([], encode_prog [ILoad (s2b "aa") 0; IHalt; IInCmp (s2b "root") (s2b "*")]);
+         nd "end1" [IHalt]; catch_node]
+        [(s2b "root", s2b "root"); ([], s2b "anon"); (s2b "end1", s2b "the end"); (s2b "_catch", s2b "catch")]
+        [] [(s2b "aa", [fr "v" []])].
+Definition hist_anon : list (nat * bytes) := [(100%nat, []); (100%nat, s2b "0"); (100%nat, s2b "x"); (100%nat, s2b "1")].
+
+Lemma graceful_end_history_refuted_anon :
+  wf_app_b app_anon cfg_term = true /\ cfg_okb cfg_term = true /\ c_first cfg_term = None
+  /\ has_croak app_anon = false /\ vals_small (c_cachesize cfg_term) app_anon = true /\ quiet_catch_b app_anon = true
+  /\ has_node app_anon [] = true
+  /\ (let '(p, resps) := hist_pers (app_rsrc app_anon) cfg_term (mkPw None [] [] false) hist_anon in
+      last resps (mkResp true SOk [] FOk) = mkResp false SOk (s2b "the endv") FOk
+      /\ option_map (fun sc => (s_path (fst sc), c_frames (snd sc), c_use (snd sc))) (pw_store p)
+         = Some ([], [[(s2b "aa", s2b "v")]], 1)).
+Proof. vm_compute. repeat split; reflexivity. Qed.
+
+(* ---- non-vacuity: corpus graceful-end meets every guard -------------------------------------------- *)
+Definition hist_graceful : list (nat * bytes) := [(100%nat, []); (100%nat, s2b "1")].
+Lemma graceful_history_witness :
+  c20_guards app_graceful cfg_graceful = true /\ c_first cfg_graceful = None
+  /\ fst (hist_pers rs_graceful cfg_graceful (mkPw None [] [] false) hist_graceful) = p_graceful
+  /\ pw_store p_graceful = Some (g_st, g_ca)
+  /\ accepted_b (s2b "1") = true /\ reset_req cfg_graceful (s2b "1") = false /\ stale g_st = false
+  /\ g_run = (g_v1, [], SOk) /\ getf (v_st g_v1) FLAG_TERMINATE = false
+  /\ g_render = (g_v', RROk (s2b "the end")) /\ s_path (v_st g_v') <> [].
+Proof. vm_compute. repeat split; try reflexivity. discriminate. Qed.
+
+(* ======================================================================================== *)
+(* 8. long-lived engine: blocked requests and the graceful end                                *)
+(* ======================================================================================== *)
+(* the last output was delivered (agent persist's notion, EngineProofs.delivered) *)
+Definition delivered_l (e : engine) : Prop :=
+  e_execd e = false \/ (getf (v_st (e_v e)) FLAG_DIRTY = false /\ e_exiting e = false /\ e_exit e = []).
+
+Lemma eng_init_delivered : forall fuel rs c e input,
+  e_initd e = true -> delivered_l e ->
+  eng_init fuel rs c e input = (mkEng (e_v e) true [] false false, true, SOk).
+Proof.
+  intros fuel rs c e input Hi Hd. unfold eng_init.
+  assert (Hpre : (if e_execd e then let '(e', _, f) := eng_flush fuel rs c e in (e', stat_of_f f) else (e, SOk)) = (e, SOk)).
+  { destruct (e_execd e) eqn:Hx; [|reflexivity]. destruct Hd as [Hd|(H1 & H2 & H3)]; [congruence|].
+    unfold eng_flush. rewrite Hx. cbn [negb]. rewrite vm_render_clean by exact H1.
+    cbn [eset_v e_exit e_exiting e_v e_initd e_execd]. rewrite H3, H2. cbn [len List.length N.of_nat]. rewrite andb_false_r. cbn [andb List.app].
+    destruct e; cbn in *; subst; reflexivity. }
+  rewrite Hpre. cbn [e_initd e_v]. rewrite Hi. reflexivity.
+Qed.
+
+(* a long-lived, initialised engine whose session has TERMINATE set: whether or not an entry
+   function is configured (it ran when the engine was initialised), the request reports stop,
+   produces no output, logs nothing and changes nothing but the pending code (dropped) and the
+   input.  Once the code is gone Exec fails with "no code to execute" instead of returning OK. *)
+Definition blocked_engine (e : engine) (input : bytes) (d : bool) : engine :=
+  mkEng (vset_st (e_v e) (set_input_raw (set_code (v_st (e_v e)) []) (Some input))) true [] false d.
+
+Lemma blocked_request_long : forall fuel rs c e input,
+  e_initd e = true -> delivered_l e ->
+  getf (v_st (e_v e)) FLAG_TERMINATE = true -> getf (v_st (e_v e)) FLAG_DIRTY = false ->
+  accepted_b input = true -> (reset_req c input = false \/ s_path (v_st (e_v e)) = []) ->
+  request_long (S fuel) rs c e input =
+    match s_code (v_st (e_v e)) with
+    | [] => (blocked_engine e input false, mkResp false (SErr EGen None) [] (FErr EFlushNoExec))
+    | _ => (blocked_engine e input true, mkResp false SOk [] FOk)
+    end.
+Proof.
+  intros fuel rs c e input Hi Hd Ht Hdirty Ha Hreset. unfold request_long, eng_exec.
+  rewrite eng_init_delivered by assumption. cbn [negb].
+  assert (Hre : (if c_reset_empty c && (len input =? 0)
+                 then eng_reset_force c (mkEng (e_v e) true [] false false)
+                 else (mkEng (e_v e) true [] false false, SOk)) = (mkEng (e_v e) true [] false false, SOk)).
+  { destruct Hreset as [Hr|Hp]; [unfold reset_req in Hr; rewrite Hr; reflexivity|].
+    destruct (c_reset_empty c && (len input =? 0)); [|reflexivity].
+    unfold eng_reset_force. cbn [e_v]. rewrite Hp. reflexivity. }
+  rewrite Hre. rewrite accepted_valid by exact Ha. cbn [e_v]. rewrite set_input_accepted by exact Ha.
+  unfold eng_exec_inner. cbn [e_v eset_v v_st vset_st s_code set_input_raw e_initd e_exit e_exiting].
+  destruct (s_code (v_st (e_v e))) as [|x code] eqn:Hc.
+  - unfold eng_flush. cbn [e_execd negb]. unfold blocked_engine. reflexivity.
+  - rewrite run_terminate_blocks by exact Ht.
+    cbn [v_st vset_st]. change (getf (set_code (set_input_raw (v_st (e_v e)) (Some input)) []) FLAG_TERMINATE)
+      with (getf (v_st (e_v e)) FLAG_TERMINATE). rewrite Ht.
+    unfold eng_flush. cbn [e_execd negb e_v v_st vset_st].
+    rewrite vm_render_clean by exact Hdirty.
+    cbn [e_exit e_exiting eset_v len List.length N.of_nat]. rewrite andb_false_r. cbn [andb List.app].
+    unfold blocked_engine. reflexivity.
+Qed.
+
+(* the engine a blocked request leaves is blocked again *)
+Lemma blocked_engine_again : forall e input d,
+  getf (v_st (e_v e)) FLAG_TERMINATE = true -> getf (v_st (e_v e)) FLAG_DIRTY = false ->
+  e_initd (blocked_engine e input d) = true /\ delivered_l (blocked_engine e input d)
+  /\ getf (v_st (e_v (blocked_engine e input d))) FLAG_TERMINATE = true
+  /\ getf (v_st (e_v (blocked_engine e input d))) FLAG_DIRTY = false
+  /\ s_code (v_st (e_v (blocked_engine e input d))) = []
+  /\ s_path (v_st (e_v (blocked_engine e input d))) = s_path (v_st (e_v e))
+  /\ v_ca (e_v (blocked_engine e input d)) = v_ca (e_v e)
+  /\ v_log (e_v (blocked_engine e input d)) = v_log (e_v e)
+  /\ v_w (e_v (blocked_engine e input d)) = v_w (e_v e).
+Proof.
+  intros e input d Ht Hd. unfold blocked_engine, delivered_l. cbn.
+  repeat split; try assumption. destruct d; [right; auto|left; reflexivity].
+Qed.
+
+Fixpoint requests_long (fuel : nat) (rs : rsrc) (c : config) (e : engine) (inputs : list bytes) : engine * list response :=
+  match inputs with
+  | [] => (e, [])
+  | i :: r =>
+    let '(e1, resp) := request_long fuel rs c e i in
+    let '(e2, resps) := requests_long fuel rs c e1 r in
+    (e2, resp :: resps)
+  end.
+
+(* every later request of a long-lived engine: stop, no output, nothing logged, nothing run *)
+Lemma blocked_until_cleared_long : forall fuel rs c inputs e,
+  e_initd e = true -> delivered_l e ->
+  getf (v_st (e_v e)) FLAG_TERMINATE = true -> getf (v_st (e_v e)) FLAG_DIRTY = false ->
+  Forall (fun i => accepted_b i = true /\ (reset_req c i = false \/ s_path (v_st (e_v e)) = [])) inputs ->
+  let '(e', resps) := requests_long (S fuel) rs c e inputs in
+  Forall (fun r => r_cont r = false /\ r_out r = [] /\ (r_exec r = SOk \/ r_exec r = SErr EGen None)) resps
+  /\ v_log (e_v e') = v_log (e_v e) /\ v_w (e_v e') = v_w (e_v e)
+  /\ s_path (v_st (e_v e')) = s_path (v_st (e_v e)) /\ v_ca (e_v e') = v_ca (e_v e)
+  /\ getf (v_st (e_v e')) FLAG_TERMINATE = true.
+Proof.
+  intros fuel rs c inputs. induction inputs as [|i r IH]; intros e Hi Hd Ht Hdirty Hall; cbn [requests_long].
+  - repeat split; auto.
+  - inversion Hall as [|i' r' [Ha Hr] Hall']; subst.
+    rewrite (blocked_request_long fuel rs c e i) by assumption.
+    assert (Hstep : forall d resp, r_cont resp = false /\ r_out resp = [] /\ (r_exec resp = SOk \/ r_exec resp = SErr EGen None) ->
+      let '(e2, resps) := requests_long (S fuel) rs c (blocked_engine e i d) r in
+      Forall (fun r0 => r_cont r0 = false /\ r_out r0 = [] /\ (r_exec r0 = SOk \/ r_exec r0 = SErr EGen None)) (resp :: resps)
+      /\ v_log (e_v e2) = v_log (e_v e) /\ v_w (e_v e2) = v_w (e_v e)
+      /\ s_path (v_st (e_v e2)) = s_path (v_st (e_v e)) /\ v_ca (e_v e2) = v_ca (e_v e)
+      /\ getf (v_st (e_v e2)) FLAG_TERMINATE = true).
+    { intros d resp Hresp.
+      destruct (blocked_engine_again e i d Ht Hdirty) as (B1 & B2 & B3 & B4 & _ & B6 & B7 & B8 & B9).
+      specialize (IH (blocked_engine e i d) B1 B2 B3 B4).
+      assert (Hall2 : Forall (fun i0 => accepted_b i0 = true /\ (reset_req c i0 = false \/ s_path (v_st (e_v (blocked_engine e i d))) = [])) r).
+      { eapply Forall_impl; [|exact Hall']. intros x [H1 H2]. rewrite B6. auto. }
+      specialize (IH Hall2). destruct (requests_long (S fuel) rs c (blocked_engine e i d) r) as [e2 resps].
+      destruct IH as (I1 & I2 & I3 & I4 & I5 & I6).
+      split; [constructor; assumption|]. rewrite I2, I3, I4, I5, B6, B7, B8, B9. auto. }
+    destruct (s_code (v_st (e_v e))).
+    + specialize (Hstep false (mkResp false (SErr EGen None) [] (FErr EFlushNoExec))).
+      destruct (requests_long (S fuel) rs c (blocked_engine e i false) r) as [e2 resps]. apply Hstep. cbn. auto.
+    + specialize (Hstep true (mkResp false SOk [] FOk)).
+      destruct (requests_long (S fuel) rs c (blocked_engine e i true) r) as [e2 resps]. apply Hstep. cbn. auto.
+Qed.
+
+(* graceful end in a long-lived engine (entry function or not: it ran at initialisation) *)
+Lemma graceful_end_request_long : forall fuel rs c e input x code v1 v' page,
+  e_initd e = true -> delivered_l e -> accepted_b input = true ->
+  (reset_req c input = false \/ s_path (v_st (e_v e)) = []) ->
+  s_code (v_st (e_v e)) = x :: code -> builtin_flags_ok (v_st (e_v e)) ->
+  run fuel rs (c_sep c) (s_lang (v_st (e_v e))) (x :: code)
+      (vset_st (e_v e) (set_code (set_input_raw (v_st (e_v e)) (Some input)) [])) = (v1, [], SOk) ->
+  getf (v_st v1) FLAG_TERMINATE = false ->
+  vm_render fuel rs (c_sep c) (s_lang (v_st v1)) (exiting_vm v1) = (v', RROk page) ->
+  s_path (v_st v') <> [] ->
+  ended_on_halt v1 /\
+  request_long fuel rs c e input =
+    (mkEng (ended v') true (c_last (v_ca v1)) false true,
+     if size_overflow c (c_last (v_ca v1)) page
+     then mkResp false SOk [] (FErr EGen)
+     else mkResp false SOk (page ++ c_last (v_ca v1)) FOk).
+Proof.
+  intros fuel rs c e input x code v1 v' page Hi Hd Ha Hreset Hc Hb Hrun Ht Hrender Hp.
+  split.
+  { destruct (run_end_cases _ _ _ _ _ _ _ Hrun) as [H|H]; [|congruence|exact H].
+    cbn [v_st vset_st]. apply (builtin_in_range (v_st (e_v e))); [exact Hb|vm_compute; discriminate]. }
+  unfold request_long, eng_exec. rewrite eng_init_delivered by assumption. cbn [negb].
+  assert (Hre : (if c_reset_empty c && (len input =? 0)
+                 then eng_reset_force c (mkEng (e_v e) true [] false false)
+                 else (mkEng (e_v e) true [] false false, SOk)) = (mkEng (e_v e) true [] false false, SOk)).
+  { destruct Hreset as [Hr|Hp0]; [unfold reset_req in Hr; rewrite Hr; reflexivity|].
+    destruct (c_reset_empty c && (len input =? 0)); [|reflexivity].
+    unfold eng_reset_force. cbn [e_v]. rewrite Hp0. reflexivity. }
+  rewrite Hre. rewrite accepted_valid by exact Ha. cbn [e_v]. rewrite set_input_accepted by exact Ha.
+  set (e0 := eset_v (mkEng (e_v e) true [] false false) (vset_st (e_v e) (set_input_raw (v_st (e_v e)) (Some input)))).
+  destruct (graceful_exec_inner fuel rs c e0 x code v1) as [Hexec _].
+  { unfold e0. cbn [e_v eset_v v_st vset_st s_code set_input_raw]. exact Hc. }
+  { unfold e0. cbn [e_v eset_v v_st vset_st s_lang set_input_raw]. exact Hrun. }
+  { exact Ht. }
+  { unfold e0. cbn [e_v eset_v v_st vset_st]. apply (builtin_in_range (v_st (e_v e))); [exact Hb|vm_compute; discriminate]. }
+  rewrite Hexec.
+  rewrite (graceful_flush fuel rs c _ v' page); try reflexivity; try exact Hp.
+  2:{ cbn [e_v]. change (s_lang (v_st (exiting_vm v1))) with (s_lang (v_st v1)). exact Hrender. }
+  cbn [e_exit e_initd]. unfold e0. cbn [e_initd eset_v].
+  destruct (size_overflow c (c_last (v_ca v1)) page); reflexivity.
 Qed.
